@@ -20,8 +20,9 @@ def cpp_type(cpp):
 
 
 class Gen:
-    def __init__(self, dom, cpp, protos, all_doms, seed, thorough, dangling=()):
+    def __init__(self, dom, cpp, protos, all_doms, seed, thorough, dangling=(), topo_unchecked=()):
         self.dangling = set(dangling)
+        self.topo_unchecked = set(topo_unchecked)    # entries casting their 2nd operand by the topology of the 1st (facts)
         self.D, self.cpp, self.all = dom, cpp_type(cpp), all_doms      # all_doms: {interface name: c++ name}
         self.protos = protos
         self.out = []
@@ -233,6 +234,11 @@ class Gen:
                 cargs = [variants_per_arg[k][j][2] for k, j in enumerate(tup)]
                 margs = [variants_per_arg[k][j][3] for k, j in enumerate(tup)]
                 watches = [variants_per_arg[k][j][4] for k, j in enumerate(tup) if variants_per_arg[k][j][4]]
+                if "ytopol" in tag and name in self.topo_unchecked:
+                    # undefined behaviour inside the entry (operands of different topologies are cast alike): probe in a child
+                    self.w("  { Dom::T* proto = Dom::make(%d); cif::Obj<Dom> s(*proto); cif::Obj<Dom> a0(%d);" % (r, self.y_recipe(r) ^ 8))
+                    self.w("    cif::forked_call(\"%s\", \"%s/r%d\", [&] { return %s(s.h, a0.ch()); }); delete proto; }" % (name, tag, r, name))
+                    continue
                 self.w("  { // %s" % name)
                 self.w("    const unsigned DIM = cif::recipe_dim(%d); (void) DIM; const int RECIPE_Y = %d; (void) RECIPE_Y;" % (r, self.y_recipe(r)))
                 self.w("    cif::Watch W;")
@@ -248,8 +254,11 @@ class Gen:
                 if equals:
                     mexpr = "RET((t == %s))" % margs[0]
                 elif self.is_poly and (meth.endswith("_if_exact") or meth == "positive_time_elapse_assign"):
-                    mexpr = ("RET((t.topology() == NECESSARILY_CLOSED ? static_cast<C_Polyhedron&>(t).%s(static_cast<const C_Polyhedron&>(%s))"
-                             " : static_cast<NNC_Polyhedron&>(t).%s(static_cast<const NNC_Polyhedron&>(%s))))" % (meth, margs[0], meth, margs[0]))
+                    # C_Polyhedron / NNC_Polyhedron methods: the C++ API is type-safe; the C entry must reject mixed topologies
+                    y0 = margs[0]
+                    mexpr = ("RET((t.topology() != (%s).topology() ? throw std::invalid_argument(\"topology-incompatible operands\")"
+                             " : t.topology() == NECESSARILY_CLOSED ? static_cast<C_Polyhedron&>(t).%s(static_cast<const C_Polyhedron&>(%s))"
+                             " : static_cast<NNC_Polyhedron&>(t).%s(static_cast<const NNC_Polyhedron&>(%s))))" % (y0, meth, y0, meth, y0))
                 else:
                     mexpr = "RET(t.%s(%s))" % (meth, ", ".join(margs))
                 extra = "nullptr"
@@ -492,6 +501,13 @@ class Gen:
             cases = [(1, 2, "ok"), (2, 3, "ok2"), (1, 5, "ydim3")]
             if self.is_poly:
                 cases += [(9, 10, "nnc"), (10, 11, "nnc2")]
+            if self.is_poly:
+                self.w("  { Dom::T* proto = Dom::make(1); cif::Obj<Dom> s(*proto); cif::Obj<Dom> y(10); Dom::H pi = 0; ppl_Pointset_Powerset_NNC_Polyhedron_t pr = 0;")
+                if name in self.topo_unchecked:
+                    self.w("    cif::forked_call(\"%s\", \"ytopol/r1\", [&] { return %s(s.h, y.ch(), &pi, &pr); }); delete proto; }" % (name, name))
+                else:
+                    self.w("    cif::run_self<Dom>(\"%s\", \"ytopol/r1\", *proto, false, [&](Dom::H h) { int r = %s(h, y.ch(), &pi, &pr); cif::disarm(); if (pi) Dom::cdel(pi); if (pr) %s; pi = 0; pr = 0; return r; }," % (name, name, delrest))
+                    self.w("      [&](Dom::T& t) -> int { if (t.topology() != y.t().topology()) throw std::invalid_argument(\"topology-incompatible operands\"); return 0; }); delete proto; }")
             for r, ry, tag in cases:
                 self.w("  { Dom::T* proto = Dom::make(%d); cif::Obj<Dom> y(%d); Dom::H pi = 0; ppl_Pointset_Powerset_NNC_Polyhedron_t pr = 0;" % (r, ry))
                 self.w("    Dom::T* mi = 0; Pointset_Powerset<NNC_Polyhedron>* mr = 0;")
